@@ -331,6 +331,18 @@ func crashsimExec(r *Run) {
 		}
 	}
 	r.Cfg["plan"] = fmt.Sprint(plan)
+	// delivery discipline after an error answer. "log and go on with the batch" is what both sync engines do (and
+	// the recorded finding); a careful deliverer stops at the first error answer and starts again from the
+	// beginning, so that no descendant is ever offered before its parent was stored: with it the statement must
+	// hold for storage errors as it does for kills.
+	careful := false
+	for _, f := range plan {
+		if f.Kind == kErrBefore || f.Kind == kErrAfter {
+			careful = t.Chance(1, 2, "careful-delivery")
+			break
+		}
+	}
+	r.Cfg["careful_delivery"] = careful
 	// ---------------- phase 2: faulted run
 	w := NewWorldKeepIgnore(r)
 	defer w.Destroy()
@@ -360,7 +372,21 @@ func crashsimExec(r *Run) {
 		if len(tr.fired) == 0 {
 			return "no-fault-fired"
 		}
+		if careful {
+			return "careful:" + strings.Join(tr.fired, "+")
+		}
 		return strings.Join(tr.fired, "+")
+	}
+	lastCls := ""
+	restarts := 0
+	// careful delivery: an error answer sends the deliverer back to the start of the history
+	again := func() bool {
+		if careful && strings.HasPrefix(lastCls, "error") && restarts < 12 {
+			restarts++
+			r.Probe("careful-restart-after-error")
+			return true
+		}
+		return false
 	}
 	feed := func(raw RawHeader, pass string, strict bool) (crashed bool) {
 		r.Step++
@@ -384,6 +410,7 @@ func crashsimExec(r *Run) {
 			r.Fail("C05", "panic", sigOf()+"|"+panicSite(st), "%s: Chains.Add(%s) panicked: %v", pass, short(raw.Hash()), pv)
 		}
 		cls := answerClass(got, err)
+		lastCls = cls
 		r.Logf("%s %s -> %s", pass, short(raw.Hash()), cls)
 		if cls == OutStored {
 			acked[raw.Hash().String()] = raw
@@ -438,6 +465,8 @@ func crashsimExec(r *Run) {
 			if crashes > 4 {
 				break
 			}
+		} else if again() {
+			i = -1
 		}
 	}
 	if crashes == 0 {
@@ -453,6 +482,8 @@ func crashsimExec(r *Run) {
 				if crashes > 6 {
 					break
 				}
+			} else if again() {
+				i = -1
 			}
 		}
 	}
